@@ -394,6 +394,14 @@ def isComment : Event → Bool
   | .comment _ _ => true
   | _ => false
 
+def evIsNewline : Event → Bool
+  | .newline _ => true
+  | _ => false
+
+def evIsWs : Event → Bool
+  | .ws _ => true
+  | _ => false
+
 /-- `ends_with_newline` -/
 def endsWithNewline (evs : List Event) (nl : Bytes) (dflt : Bool) : Bool :=
   if evs.isEmpty then dflt
